@@ -10,7 +10,7 @@ from pbt import strategies as S
 from pbt.common import Stats, Sub, Violation
 from pbt.model import Model, add_record, matching_records, norm_records, prefixes_of, uri_prefixes_of
 from pbt.props.c05 import consistency_error
-from pbt.sut import Converter, curies, dump_records, mk_records
+from pbt.sut import BUILD_MODES, Converter, curies, dump_records, mk_converter_via, mk_records
 
 PROPERTY_ID = "C09"
 RULE = (
@@ -150,13 +150,13 @@ def sub_cases(draw, tier="quick"):
     ps = S.all_prefixes(recs)
     sel = draw(st.lists(st.sampled_from(ps), min_size=0 if draw(st.integers(0, 4)) == 0 else 1, max_size=4)) if ps else []
     sel += draw(st.lists(st.sampled_from(["zz", "", "A", "a"]), max_size=2))
-    return {"records": recs, "prefixes": sel}
+    return {"records": recs, "prefixes": sel, "build": draw(st.sampled_from(BUILD_MODES))}
 
 
 def check_sub(case, stats: Stats) -> None:
     stats.ev()
     recs, sel = case["records"], case["prefixes"]
-    parent = Converter(mk_records(recs))
+    parent = mk_converter_via({"delimiter": ":", "records": recs}, case.get("build", "at-once"))
     sub = parent.get_subconverter(sel)
     keep = [r for r in recs if set(prefixes_of(r)) & set(sel)]
     if norm_records(dump_records(sub)) != norm_records(keep):
